@@ -238,6 +238,67 @@ theorem protected_from_child (fuel : Nat) (g : Inh) (caller defined : Node)
 theorem protected_from_self (fuel : Nat) (g : Inh) (c : Node) : protectedOk fuel g c c = true := by
   simp [protectedOk]
 
+/-- `c₀ → c₁ → … → target`: every class of the chain has exactly the next one as its parent list -/
+def linked (g : Inh) : List Node → Prop
+  | a :: b :: rest => parentsOfNode g a = [b] ∧ linked g (b :: rest)
+  | _ => True
+
+/-- **A protected method may be called from a descendant at any depth** (single-inheritance chain): for a chain
+`c → d₁ → … → dₙ → target` of distinct classes, none of them entered before, the walk finds `target` — for every
+chain length, given at least that much fuel. -/
+theorem ancestor_along_chain (g : Inh) (target : Node) :
+    ∀ (chain : List Node) (c : Node) (seen : List Node) (fuel : Nat),
+      linked g (c :: chain ++ [target]) → (c :: chain).Nodup → (∀ x ∈ c :: chain, x ∉ seen) →
+      chain.length + 1 ≤ fuel → (isAncestor fuel g c target seen).1 = true := by
+  intro chain
+  induction chain with
+  | nil =>
+    intro c seen fuel hl _ hs hf
+    obtain ⟨f, rfl⟩ : ∃ f, fuel = f + 1 := ⟨fuel - 1, by omega⟩
+    have hc : seen.contains c = false := by
+      simpa [List.contains_eq_mem] using hs c (by simp)
+    have hp : parentsOfNode g c = [target] := by simpa [linked] using hl
+    have hc' : c ∉ seen := hs c (by simp)
+    simp [isAncestor, hc', hp, anyAncestor]
+  | cons d rest ih =>
+    intro c seen fuel hl hn hs hf
+    obtain ⟨f, rfl⟩ : ∃ f, fuel = f + 1 := ⟨fuel - 1, by simp at hf; omega⟩
+    have hc : seen.contains c = false := by
+      simpa [List.contains_eq_mem] using hs c (by simp)
+    have hl' : parentsOfNode g c = [d] ∧ linked g (d :: rest ++ [target]) := by simpa [linked] using hl
+    have hn' : (d :: rest).Nodup := (List.nodup_cons.mp hn).2
+    have hcd : ∀ x ∈ d :: rest, x ≠ c := by
+      intro x hx hxc; subst hxc; exact (List.nodup_cons.mp hn).1 hx
+    have hrec := ih d (c :: seen) f hl'.2 hn'
+      (by intro x hx hmem
+          rcases List.mem_cons.mp hmem with h | h
+          · exact hcd x hx h
+          · exact hs x (List.mem_cons_of_mem _ hx) h)
+      (by simp at hf ⊢; omega)
+    simp only [isAncestor, hc, hl'.1, anyAncestor]
+    by_cases hdt : (d == target) = true
+    · simp [hdt]
+    · simp only [hdt]
+      cases hr : isAncestor f g d target (c :: seen) with
+      | mk b s =>
+        rw [hr] at hrec
+        simp at hrec
+        subst hrec
+        rfl
+
+/-- corollary for the check itself: a descendant at any depth passes the protected check -/
+theorem protected_from_descendant (g : Inh) (caller target : Node) (chain : List Node)
+    (hl : linked g (caller :: chain ++ [target])) (hn : (caller :: chain).Nodup) :
+    protectedOk (chain.length + 1) g caller target = true := by
+  simp [protectedOk, ancestor_along_chain g target chain caller [] (chain.length + 1) hl hn (by simp) (Nat.le_refl _)]
+
+/-- non-vacuity: `class C < B`, `class B < A` is a linked chain of distinct classes -/
+example :
+    let n := fun (c : String) => ({ frame := [], cls := c.toList } : Node)
+    let g : Inh := [(([], "C".toList), [n "B"]), (([], "B".toList), [n "A"])]
+    linked g (n "C" :: [n "B"] ++ [n "A"]) ∧ (n "C" :: [n "B"]).Nodup := by
+  simp [linked, parentsOfNode, parentsOf, Frame.lookup]
+
 /-! tests on one concrete graph (labelled as tests): a grandchild passes, an outsider does not, and a cyclic
 declaration (`class L < R`, `class R < L`) ends the walk -/
 def tNode (c : String) : Node := { frame := [], cls := c.toList }
